@@ -37,6 +37,36 @@ fn main() {
         }
         let v: Value = serde_json::from_str(&line).unwrap();
         let id = v["id"].clone();
+        if let Some(text) = v.get("grammar_full").and_then(|t| t.as_str()) {
+            // whole pipeline: PAR text -> ParolGrammar -> GrammarConfig (scanner configurations as parol
+            // derives them from the directives) -> generate_build_information per scanner state
+            let text = text.to_owned();
+            let r = std::panic::catch_unwind(move || -> Result<Value, String> {
+                let gc = obtain_grammar_config_from_string(&text, false).map_err(|e| format!("{e:?}"))?;
+                let names = generate_terminal_names(&gc);
+                let mut states = Vec::new();
+                for sc in &gc.scanner_configurations {
+                    let (terms, _) = sc.generate_build_information(&gc, &names).map_err(|e| format!("{e}"))?;
+                    let t: Vec<Value> = terms
+                        .iter()
+                        .map(|(rx, idx, la, name)| json!([rx, idx, la.as_ref().map(|(p, s)| json!([p, s])), name]))
+                        .collect();
+                    states.push(json!({"name": sc.scanner_name, "state": sc.scanner_state, "terminals": t}));
+                }
+                Ok(json!({"states": states}))
+            });
+            let resp = match r {
+                Ok(Ok(mut o)) => {
+                    o["id"] = id;
+                    o["ok"] = json!(true);
+                    o
+                }
+                Ok(Err(e)) => json!({"id": id, "ok": false, "error": e}),
+                Err(_) => json!({"id": id, "ok": false, "error": "panic", "panic": true}),
+            };
+            writeln!(out, "{}", resp).unwrap();
+            continue;
+        }
         if let Some(text) = v.get("parse_text").and_then(|t| t.as_str()) {
             // C34 replay: parol's own grammar parser on a text
             let text = text.to_owned();
